@@ -1,16 +1,19 @@
-(* Pwl/ElimEff.v -- infeasible_elimination is effective and idempotent (C06), in the exact-arithmetic
-   idealisation: containment tolerance 0 and an LP oracle that is exact on the queries it is asked
-   (Infeasible <-> empty, Unbounded / Optimal w only for non-empty polytopes with w inside, never Error).
+(* Pwl/ElimEff.v -- infeasible_elimination is effective and idempotent (C06), for every containment tolerance
+   tol >= 0 and an LP oracle that is exact on the queries it is asked (Infeasible <-> empty, Unbounded / Optimal w
+   only for non-empty polytopes with w inside, never Error).  "Non-empty" for a node that carries witnesses means:
+   it has a point within the containment tolerance of its closed path polytope (that is all a witness ever
+   guarantees); for a node without witnesses it means exactly non-empty.
 
    Input: a tree whose decisions all have both branches and whose cached states below the root are either all
    still Indeterminate or sound feasible ones, uniformly per sibling pair (that is what a fresh tree, the result
    of an earlier run, and a composition of such results look like).  Then in the result
-     * every node below the root has a determined feasible state and a non-empty closed path polytope,
+     * every node below the root has a determined feasible state and a closed path polytope that is non-empty
+       (within the containment tolerance when the evidence is a witness),
      * every decision below the root still has both branches (a decision with one infeasible branch was replaced
        by the other branch; at the root the infeasible branch is removed instead),
      * a second run -- with ANY oracle -- returns the same tree and asks no LP.
-   The gap between this idealisation and the code's tolerance 1e-8 / minilp's 1e-8 is what the per-instance
-   certified checks of the runner (regions relaxed by tau) cover. *)
+   What remains idealised is the solver (exact on the asked queries); minilp's own tolerance is what the
+   per-instance certified checks of the runner (regions relaxed by tau) cover. *)
 From AT Require Import Num Vec Aff PTree Cells Abs Cache Elim ElimEval ElimCache.
 
 Definition ne (q : rows) : Prop := exists x, in_rows q x.
@@ -32,42 +35,44 @@ Fixpoint is_path (q : rows) (t : ctree) (r : rows) : Prop :=
 Lemma is_path_self q t : c_exists t = true -> is_path q t q.
 Proof. destruct t; simpl; [discriminate|auto]. Qed.
 
-Lemma contains0 q w : contains_tol 0 q w = true <-> in_rows q w.
+Lemma in_rows_contains tol q w : 0 <= tol -> in_rows q w -> contains_tol tol q w = true.
 Proof.
   unfold contains_tol, in_rows. rewrite forallb_forall, Forall_forall.
-  split; intros H rb Hrb; specialize (H rb Hrb).
-  - apply qleb_spec in H. qlra.
-  - apply qleb_spec. qlra.
+  intros Ht H rb Hrb. specialize (H rb Hrb). apply qleb_spec. qlra.
 Qed.
+(* non-empty within the containment tolerance *)
+Definition ne_tol (tol : Qc) (q : rows) : Prop := exists x, contains_tol tol q x = true.
+Lemma ne_ne_tol tol q : 0 <= tol -> ne q -> ne_tol tol q.
+Proof. intros Ht [x Hx]. exists x. apply in_rows_contains; auto. Qed.
 
 (* what a determined state claims, exactly *)
-Definition gst (q : rows) (s : nstate) : Prop :=
+Definition gst (tol : Qc) (q : rows) (s : nstate) : Prop :=
   match s with
   | Indet => False
   | Infeas => ~ ne q
   | Feas => ne q
-  | FeasW ws => st_wit 0 q (FeasW ws)
+  | FeasW ws => st_wit tol q (FeasW ws)
   end.
-Lemma st_wit_ne q ws : st_wit 0 q (FeasW ws) -> ne q.
+Lemma st_wit_ne tol q ws : st_wit tol q (FeasW ws) -> ne_tol tol q.
 Proof.
   intros [Hn Hall]. destruct ws as [|w ws]; [congruence|].
-  apply Forall_cons_iff in Hall as [Hw _]. exists w. apply contains0. exact Hw.
+  apply Forall_cons_iff in Hall as [Hw _]. exists w. exact Hw.
 Qed.
-Lemma gst_feas_ne q s : is_feas s = true -> gst q s -> ne q.
-Proof. destruct s; simpl; try discriminate; auto. intros _. apply st_wit_ne. Qed.
-Lemma gst_wit q s : gst q s -> st_wit 0 q s.
+Lemma gst_feas_ne tol q s : 0 <= tol -> is_feas s = true -> gst tol q s -> ne_tol tol q.
+Proof. intros Ht. destruct s; simpl; try discriminate; intros _ H. apply ne_ne_tol; auto. eapply st_wit_ne; eauto. Qed.
+Lemma gst_wit tol q s : gst tol q s -> st_wit tol q s.
 Proof. destruct s; simpl; auto. Qed.
 Lemma in_rows_incl q q' x : (forall r, In r q' -> In r q) -> in_rows q x -> in_rows q' x.
 Proof. unfold in_rows. rewrite !Forall_forall. intros Hi H r Hr. apply H. apply Hi. exact Hr. Qed.
 Lemma ne_incl q q' : (forall r, In r q' -> In r q) -> ne q -> ne q'.
 Proof. intros Hi [x Hx]. exists x. eapply in_rows_incl; eauto. Qed.
-Lemma gst_incl_feas q q' s : (forall r, In r q' -> In r q) -> is_feas s = true -> gst q s -> gst q' s.
+Lemma gst_incl_feas tol q q' s : (forall r, In r q' -> In r q) -> is_feas s = true -> gst tol q s -> gst tol q' s.
 Proof.
   intros Hi. destruct s; simpl; try discriminate; intros _ H.
   - eapply ne_incl; eauto.
-  - eapply (st_wit_incl 0 q q' (FeasW ws)); eauto.
+  - eapply (st_wit_incl tol q q' (FeasW ws)); eauto.
 Qed.
-Lemma gst_cases q s : gst q s -> (is_infeas s = true /\ ~ ne q) \/ (is_feas s = true /\ is_infeas s = false).
+Lemma gst_cases tol q s : gst tol q s -> (is_infeas s = true /\ ~ ne q) \/ (is_feas s = true /\ is_infeas s = false).
 Proof. destruct s; simpl; intros H; try contradiction; auto. Qed.
 Lemma ne_cover p q : ne q -> ne (q ++ [row0 p]) \/ ne (q ++ [row1 p]).
 Proof. intros [x Hx]. destruct (rows_cover p x q Hx); [left|right]; exists x; auto. Qed.
@@ -75,21 +80,21 @@ Lemma ne_nil : ne [].
 Proof. exists []. constructor. Qed.
 
 (* ---------- classification under an exact oracle ---------- *)
-Lemma phase_two_exact o q k s k' : oexact_at o q -> phase_two o 0 q k = (s, k') -> gst q s.
+Lemma phase_two_exact o tol q k s k' : 0 <= tol -> oexact_at o q -> phase_two o tol q k = (s, k') -> gst tol q s.
 Proof.
-  unfold phase_two. intros Ho H. specialize (Ho (k_lp k)). destruct (o_lp o (k_lp k) q) eqn:E.
+  unfold phase_two. intros Ht Ho H. specialize (Ho (k_lp k)). destruct (o_lp o (k_lp k) q) eqn:E.
   - inversion H; subst. exact Ho.
   - inversion H; subst. exact Ho.
-  - rewrite (proj2 (contains0 q w) Ho) in H. inversion H; subst. split; [discriminate|].
-    constructor; auto. apply contains0; auto.
+  - rewrite (in_rows_contains tol q w Ht Ho) in H. inversion H; subst. split; [discriminate|].
+    constructor; auto. apply in_rows_contains; auto.
   - contradiction.
 Qed.
-Lemma classify_exact o stP qP h k s k' : oexact_at o (qP ++ [h]) -> mir_sound o 0 -> st_wit 0 qP stP ->
-  classify o 0 stP (qP ++ [h]) h k = (s, k') -> gst (qP ++ [h]) s.
+Lemma classify_exact o tol stP qP h k s k' : 0 <= tol -> oexact_at o (qP ++ [h]) -> mir_sound o tol -> st_wit tol qP stP ->
+  classify o tol stP (qP ++ [h]) h k = (s, k') -> gst tol (qP ++ [h]) s.
 Proof.
-  intros Ho Hm HP H. pose proof (classify_wit o 0 stP qP h k s k' Hm HP H) as Hw.
+  intros Ht Ho Hm HP H. pose proof (classify_wit o tol stP qP h k s k' Hm HP H) as Hw.
   unfold classify in H. destruct stP as [| | |ws]; try (eapply phase_two_exact; eauto; fail).
-  destruct (filter (fun w => contains_tol 0 [h] w) ws) as [|w0 inh].
+  destruct (filter (fun w => contains_tol tol [h] w) ws) as [|w0 inh].
   - destruct (o_mir o (k_mir k) (qP ++ [h]) ws).
     + inversion H; subst. exact Hw.
     + eapply phase_two_exact; eauto.
@@ -97,15 +102,15 @@ Proof.
 Qed.
 
 (* cached states that the input may carry below the root *)
-Definition cst (q : rows) (s : nstate) : Prop := s = Indet \/ (is_feas s = true /\ gst q s).
+Definition cst (tol : Qc) (q : rows) (s : nstate) : Prop := s = Indet \/ (is_feas s = true /\ gst tol q s).
 
-Lemma visit_exact o stP qP h c k s k' fr sk : oexact_at o (qP ++ [h]) -> mir_sound o 0 -> st_wit 0 qP stP ->
-  cst (qP ++ [h]) (c_state c) ->
-  visit o 0 stP (qP ++ [h]) h c k = (s, k', fr, sk) ->
-  gst (qP ++ [h]) s /\ fr = is_indet (c_state c) /\ sk = is_infeas s /\ (is_infeas s = true -> fr = true).
+Lemma visit_exact o tol stP qP h c k s k' fr sk : 0 <= tol -> oexact_at o (qP ++ [h]) -> mir_sound o tol -> st_wit tol qP stP ->
+  cst tol (qP ++ [h]) (c_state c) ->
+  visit o tol stP (qP ++ [h]) h c k = (s, k', fr, sk) ->
+  gst tol (qP ++ [h]) s /\ fr = is_indet (c_state c) /\ sk = is_infeas s /\ (is_infeas s = true -> fr = true).
 Proof.
-  unfold visit. intros Ho Hm HP Hc H. destruct (c_state c) eqn:Ec.
-  - destruct (classify o 0 stP (qP ++ [h]) h k) as [s' k''] eqn:Ecl. inversion H; subst.
+  unfold visit. intros Ht Ho Hm HP Hc H. destruct (c_state c) eqn:Ec.
+  - destruct (classify o tol stP (qP ++ [h]) h k) as [s' k''] eqn:Ecl. inversion H; subst.
     repeat split; auto. eapply classify_exact; eauto.
   - destruct Hc as [Hc|[Hc _]]; discriminate.
   - inversion H; subst. destruct Hc as [Hc|[_ Hc]]; [discriminate|]. split; [exact Hc|]. repeat split; auto; try (intros C; discriminate C).
@@ -113,47 +118,47 @@ Proof.
 Qed.
 
 (* ---------- input and result invariants ---------- *)
-Fixpoint okc (q : rows) (t : ctree) : Prop :=
+Fixpoint okc (tol : Qc) (q : rows) (t : ctree) : Prop :=
   match t with
   | CU => True
   | CN _ leaf p s c0 c1 =>
-      cst q s /\
+      cst tol q s /\
       (leaf = false ->
        c_exists c0 = true /\ c_exists c1 = true /\ is_indet (c_state c0) = is_indet (c_state c1) /\
-       okc (q ++ [row0 p]) c0 /\ okc (q ++ [row1 p]) c1)
+       okc tol (q ++ [row0 p]) c0 /\ okc tol (q ++ [row1 p]) c1)
   end.
-Definition okc_kids (q : rows) (t : ctree) : Prop :=
+Definition okc_kids (tol : Qc) (q : rows) (t : ctree) : Prop :=
   match t with
   | CU => True
   | CN _ leaf p _ c0 c1 =>
       leaf = false ->
       c_exists c0 = true /\ c_exists c1 = true /\ is_indet (c_state c0) = is_indet (c_state c1) /\
-      okc (q ++ [row0 p]) c0 /\ okc (q ++ [row1 p]) c1
+      okc tol (q ++ [row0 p]) c0 /\ okc tol (q ++ [row1 p]) c1
   end.
-Lemma okc_kids_of q t : okc q t -> okc_kids q t.
+Lemma okc_kids_of tol q t : okc tol q t -> okc_kids tol q t.
 Proof. destruct t; simpl; tauto. Qed.
-Lemma okc_state q t : c_exists t = true -> okc q t -> cst q (c_state t).
+Lemma okc_state tol q t : c_exists t = true -> okc tol q t -> cst tol q (c_state t).
 Proof. destruct t; simpl; [discriminate|tauto]. Qed.
 
 (* a node below the root in the result: determined feasible state, non-empty region, both branches *)
-Fixpoint eff (q : rows) (t : ctree) : Prop :=
+Fixpoint eff (tol : Qc) (q : rows) (t : ctree) : Prop :=
   match t with
   | CU => True
   | CN _ leaf p s c0 c1 =>
-      is_feas s = true /\ gst q s /\
+      is_feas s = true /\ gst tol q s /\
       (leaf = false ->
-       c_exists c0 = true /\ c_exists c1 = true /\ eff (q ++ [row0 p]) c0 /\ eff (q ++ [row1 p]) c1)
+       c_exists c0 = true /\ c_exists c1 = true /\ eff tol (q ++ [row0 p]) c0 /\ eff tol (q ++ [row1 p]) c1)
   end.
 (* the root: its own state is not consulted; it may be left with a single branch *)
-Definition eff_root (q : rows) (t : ctree) : Prop :=
+Definition eff_root (tol : Qc) (q : rows) (t : ctree) : Prop :=
   match t with
   | CU => True
   | CN _ leaf p _ c0 c1 =>
       leaf = false ->
-      (c_exists c0 = true \/ c_exists c1 = true) /\ eff (q ++ [row0 p]) c0 /\ eff (q ++ [row1 p]) c1
+      (c_exists c0 = true \/ c_exists c1 = true) /\ eff tol (q ++ [row0 p]) c0 /\ eff tol (q ++ [row1 p]) c1
   end.
 
-Lemma eff_incl : forall t q q', (forall r, In r q' -> In r q) -> eff q t -> eff q' t.
+Lemma eff_incl tol : forall t q q', (forall r, In r q' -> In r q) -> eff tol q t -> eff tol q' t.
 Proof.
   induction t as [|i leaf p s c0 IH0 c1 IH1]; intros q q' Hi H; [exact I|].
   destruct H as [Hf [Hg Hk]]. split; [exact Hf|]. split; [eapply gst_incl_feas; eauto|].
@@ -161,19 +166,49 @@ Proof.
   - eapply IH0; [|exact H0]. apply incl_app_r; auto.
   - eapply IH1; [|exact H1]. apply incl_app_r; auto.
 Qed.
-Lemma eff_state q t : c_exists t = true -> eff q t -> is_feas (c_state t) = true.
+Lemma eff_state tol q t : c_exists t = true -> eff tol q t -> is_feas (c_state t) = true.
 Proof. destruct t; simpl; [discriminate|tauto]. Qed.
 
-Definition res_ok (isroot : bool) (q : rows) (r : ctree) : Prop := if isroot then eff_root q r else eff q r.
+Definition res_ok (tol : Qc) (isroot : bool) (q : rows) (r : ctree) : Prop := if isroot then eff_root tol q r else eff tol q r.
 
 (* ---------- effectiveness ---------- *)
-Theorem elim_sub_eff o : mir_sound o 0 ->
-  forall t isroot q st k, (forall r, is_path q t r -> oexact_at o r) ->
-  c_exists t = true -> okc_kids q t -> ne q -> st_wit 0 q st ->
-  (isroot = false -> is_feas st = true /\ gst q st) ->
-  res_ok isroot q (fst (elim_sub o 0 isroot q st t k)).
+(* what is known about the region of the node whose children are being classified: non-empty exactly, or it carries
+   witnesses within the tolerance *)
+Definition par_ok (tol : Qc) (q : rows) (st : nstate) : Prop :=
+  ne q \/ (exists ws, st = FeasW ws /\ st_wit tol q st).
+Lemma par_ok_of_gst tol q s : is_feas s = true -> gst tol q s -> par_ok tol q s.
+Proof. destruct s; simpl; try discriminate; intros _ H; [left; exact H | right; eauto]. Qed.
+(* a point satisfies one of the two closed half-spaces of a decision, a fortiori within a tolerance *)
+Lemma halfspace_dichotomy tol p w : 0 <= tol ->
+  contains_tol tol [row0 p] w = true \/ contains_tol tol [row1 p] w = true.
 Proof.
-  intros Hm. induction t as [|i leaf p s' c0 IH0 c1 IH1]; intros isroot q st k Ho He Hk Hne Hw Hst; [discriminate|].
+  intros Ht. unfold contains_tol, row0, row1. cbn [forallb fst snd]. rewrite !andb_true_r.
+  destruct (qleb (dot (fst (prow p)) w) (snd (prow p))) eqn:E.
+  - right. apply qleb_spec in E. apply qleb_spec. qlra.
+  - left. apply qleb_false in E. apply qleb_spec. rewrite dot_vopp. qlra.
+Qed.
+(* a child for which the parent holds a witness inside its half-space is never classified infeasible *)
+Lemma visit_inherits o tol ws q h c k s k' fr sk w : cst tol q (c_state c) ->
+  visit o tol (FeasW ws) q h c k = (s, k', fr, sk) -> In w ws -> contains_tol tol [h] w = true -> is_infeas s = false.
+Proof.
+  unfold visit. intros Hc H Hw Hcw. destruct (c_state c) eqn:Ec.
+  - unfold classify in H.
+    destruct (filter (fun w0 => contains_tol tol [h] w0) ws) as [|w0 inh] eqn:Ef.
+    + exfalso. assert (Hin : In w (filter (fun w0 => contains_tol tol [h] w0) ws)) by (apply filter_In; auto).
+      rewrite Ef in Hin. exact Hin.
+    + inversion H; subst. reflexivity.
+  - destruct Hc as [Hc|[Hc _]]; discriminate.
+  - inversion H; subst; reflexivity.
+  - inversion H; subst; reflexivity.
+Qed.
+
+Theorem elim_sub_eff o tol : 0 <= tol -> mir_sound o tol ->
+  forall t isroot q st k, (forall r, is_path q t r -> oexact_at o r) ->
+  c_exists t = true -> okc_kids tol q t -> par_ok tol q st -> st_wit tol q st ->
+  (isroot = false -> is_feas st = true /\ gst tol q st) ->
+  res_ok tol isroot q (fst (elim_sub o tol isroot q st t k)).
+Proof.
+  intros Ht Hm. induction t as [|i leaf p s' c0 IH0 c1 IH1]; intros isroot q st k Ho He Hk Hpar Hw Hst; [discriminate|].
   destruct leaf.
   { cbn [elim_sub fst]. destruct isroot; unfold res_ok; cbn [eff_root eff]; [discriminate|].
     destruct (Hst eq_refl) as [H1 H2]. split; [exact H1|]. split; [exact H2|]. intros C; discriminate C. }
@@ -181,103 +216,117 @@ Proof.
   assert (Iq0 : forall r : vec * Qc, In r q -> In r (q ++ [row0 p])) by (intros r Hr; apply in_or_app; left; auto).
   assert (Iq1 : forall r : vec * Qc, In r q -> In r (q ++ [row1 p])) by (intros r Hr; apply in_or_app; left; auto).
   (* the step at a child that exists *)
-  assert (STEP : forall c h kk, oexact_at o (q ++ [h]) -> c_exists c = true -> okc (q ++ [h]) c ->
-            (forall st' k', is_feas st' = true -> gst (q ++ [h]) st' ->
-                eff (q ++ [h]) (fst (elim_sub o 0 false (q ++ [h]) st' c k'))) ->
-            forall s k1 fr sk, visit o 0 st (q ++ [h]) h c kk = (s, k1, fr, sk) ->
+  assert (STEP : forall c h kk, oexact_at o (q ++ [h]) -> c_exists c = true -> okc tol (q ++ [h]) c ->
+            (forall st' k', is_feas st' = true -> gst tol (q ++ [h]) st' ->
+                eff tol (q ++ [h]) (fst (elim_sub o tol false (q ++ [h]) st' c k'))) ->
+            forall s k1 fr sk, visit o tol st (q ++ [h]) h c kk = (s, k1, fr, sk) ->
             fr = is_indet (c_state c) /\ sk = is_infeas s /\
+            (forall ws w, st = FeasW ws -> In w ws -> contains_tol tol [h] w = true -> is_infeas s = false) /\
             ((is_infeas s = true /\ ~ ne (q ++ [h]) /\ fr = true) \/
-             (is_infeas s = false /\ is_feas s = true /\ gst (q ++ [h]) s /\
-              forall k', eff (q ++ [h]) (fst (elim_sub o 0 false (q ++ [h]) s c k'))))).
+             (is_infeas s = false /\ is_feas s = true /\ gst tol (q ++ [h]) s /\
+              forall k', eff tol (q ++ [h]) (fst (elim_sub o tol false (q ++ [h]) s c k'))))).
   { intros c h kk Hoc Hex Hok IH s k1 fr sk Ev.
-    destruct (visit_exact o st q h c kk s k1 fr sk Hoc Hm Hw (okc_state _ _ Hex Hok) Ev) as [Hg [Hfr [Hsk Hif]]].
-    split; [exact Hfr|]. split; [exact Hsk|].
-    destruct (gst_cases _ _ Hg) as [[Hi Hn]|[Hf Hi]].
+    destruct (visit_exact o tol st q h c kk s k1 fr sk Ht Hoc Hm Hw (okc_state _ _ _ Hex Hok) Ev) as [Hg [Hfr [Hsk Hif]]].
+    split; [exact Hfr|]. split; [exact Hsk|]. split.
+    { intros ws w E Hin Hcw. subst st. eapply visit_inherits; eauto. eapply okc_state; eauto. }
+    destruct (gst_cases _ _ _ Hg) as [[Hi Hn]|[Hf Hi]].
     - left. repeat split; auto.
     - right. repeat split; auto. }
+  (* the two branches are never both infeasible *)
+  assert (NOTBOTH : forall s0 s1,
+            (is_infeas s0 = true -> ~ ne (q ++ [row0 p])) -> (is_infeas s1 = true -> ~ ne (q ++ [row1 p])) ->
+            (forall ws w, st = FeasW ws -> In w ws -> contains_tol tol [row0 p] w = true -> is_infeas s0 = false) ->
+            (forall ws w, st = FeasW ws -> In w ws -> contains_tol tol [row1 p] w = true -> is_infeas s1 = false) ->
+            is_infeas s0 = true -> is_infeas s1 = true -> False).
+  { intros s0 s1 E0 E1 N0 N1 I0 I1. destruct Hpar as [Hne|[ws [Est Hws]]].
+    - destruct (ne_cover p q Hne) as [C|C]; [exact (E0 I0 C) | exact (E1 I1 C)].
+    - subst st. destruct Hws as [Hnn Hall]. destruct ws as [|w ws]; [congruence|].
+      destruct (halfspace_dichotomy tol p w Ht) as [C|C].
+      + rewrite (N0 (w :: ws) w eq_refl (or_introl eq_refl) C) in I0. discriminate.
+      + rewrite (N1 (w :: ws) w eq_refl (or_introl eq_refl) C) in I1. discriminate. }
   rewrite elim_sub_unfold. cbv zeta.
   destruct c0 as [|i0 l0 p0 s0' c00 c01]; [discriminate|].
   destruct c1 as [|i1 l1 p1 s1' c10 c11]; [discriminate|].
   set (C0 := CN i0 l0 p0 s0' c00 c01) in *. set (C1 := CN i1 l1 p1 s1' c10 c11) in *.
-  assert (IHC0 : forall st' k', is_feas st' = true -> gst (q ++ [row0 p]) st' ->
-             eff (q ++ [row0 p]) (fst (elim_sub o 0 false (q ++ [row0 p]) st' C0 k'))).
+  assert (IHC0 : forall st' k', is_feas st' = true -> gst tol (q ++ [row0 p]) st' ->
+             eff tol (q ++ [row0 p]) (fst (elim_sub o tol false (q ++ [row0 p]) st' C0 k'))).
   { intros st' k' Hf Hg. apply (IH0 false (q ++ [row0 p]) st' k'); auto.
     - intros r Hr. apply Ho. right. left. exact Hr.
     - apply okc_kids_of; auto.
-    - eapply gst_feas_ne; eauto.
+    - apply par_ok_of_gst; auto.
     - apply gst_wit; auto. }
-  assert (IHC1 : forall st' k', is_feas st' = true -> gst (q ++ [row1 p]) st' ->
-             eff (q ++ [row1 p]) (fst (elim_sub o 0 false (q ++ [row1 p]) st' C1 k'))).
+  assert (IHC1 : forall st' k', is_feas st' = true -> gst tol (q ++ [row1 p]) st' ->
+             eff tol (q ++ [row1 p]) (fst (elim_sub o tol false (q ++ [row1 p]) st' C1 k'))).
   { intros st' k' Hf Hg. apply (IH1 false (q ++ [row1 p]) st' k'); auto.
     - intros r Hr. apply Ho. right. right. exact Hr.
     - apply okc_kids_of; auto.
-    - eapply gst_feas_ne; eauto.
+    - apply par_ok_of_gst; auto.
     - apply gst_wit; auto. }
   assert (Ho0 : oexact_at o (q ++ [row0 p])) by (apply Ho; right; left; left; reflexivity).
   assert (Ho1 : oexact_at o (q ++ [row1 p])) by (apply Ho; right; right; left; reflexivity).
   unfold do_child0. fold C0.
   change (match C0 with CU => (CU, k, false) | CN _ _ _ _ _ _ =>
-            let '(s0, k1, fr0, skip0) := visit o 0 st (q ++ [row0 p]) (row0 p) C0 k in
+            let '(s0, k1, fr0, skip0) := visit o tol st (q ++ [row0 p]) (row0 p) C0 k in
             if skip0 then (set_st s0 C0, k1, fr0)
-            else let '(r0, k2) := elim_sub o 0 false (q ++ [row0 p]) s0 C0 k1 in (r0, k2, fr0) end)
-    with (let '(s0, k1, fr0, skip0) := visit o 0 st (q ++ [row0 p]) (row0 p) C0 k in
+            else let '(r0, k2) := elim_sub o tol false (q ++ [row0 p]) s0 C0 k1 in (r0, k2, fr0) end)
+    with (let '(s0, k1, fr0, skip0) := visit o tol st (q ++ [row0 p]) (row0 p) C0 k in
           if skip0 then (set_st s0 C0, k1, fr0)
-          else let '(r0, k2) := elim_sub o 0 false (q ++ [row0 p]) s0 C0 k1 in (r0, k2, fr0)).
-  destruct (visit o 0 st (q ++ [row0 p]) (row0 p) C0 k) as [[[s0 k1] fr0] skip0] eqn:Ev0.
-  destruct (STEP C0 (row0 p) k Ho0 eq_refl Hk0 IHC0 s0 k1 fr0 skip0 Ev0) as [Hfr0 [Hsk0 Hc0]].
+          else let '(r0, k2) := elim_sub o tol false (q ++ [row0 p]) s0 C0 k1 in (r0, k2, fr0)).
+  destruct (visit o tol st (q ++ [row0 p]) (row0 p) C0 k) as [[[s0 k1] fr0] skip0] eqn:Ev0.
+  destruct (STEP C0 (row0 p) k Ho0 eq_refl Hk0 IHC0 s0 k1 fr0 skip0 Ev0) as [Hfr0 [Hsk0 [N0 Hc0]]].
   destruct Hc0 as [[Hi0 [Hn0 Hfresh0]]|[Hi0 [Hf0 [Hg0 He0]]]].
-  - (* branch 0 infeasible: branch 1 must be non-empty *)
+  - (* branch 0 infeasible: branch 1 cannot be *)
     rewrite Hi0 in Hsk0. subst skip0.
     change (c_state (set_st s0 C0)) with s0. change (c_exists (set_st s0 C0)) with true.
-    destruct (visit o 0 st (q ++ [row1 p]) (row1 p) C1 k1) as [[[s1 k3] fr1] skip1] eqn:Ev1.
-    destruct (STEP C1 (row1 p) k1 Ho1 eq_refl Hk1 IHC1 s1 k3 fr1 skip1 Ev1) as [Hfr1 [Hsk1 Hc1]].
+    destruct (visit o tol st (q ++ [row1 p]) (row1 p) C1 k1) as [[[s1 k3] fr1] skip1] eqn:Ev1.
+    destruct (STEP C1 (row1 p) k1 Ho1 eq_refl Hk1 IHC1 s1 k3 fr1 skip1 Ev1) as [Hfr1 [Hsk1 [N1 Hc1]]].
     destruct Hc1 as [[Hi1 [Hn1 _]]|[Hi1 [Hf1 [Hg1 He1]]]].
-    { exfalso. destruct (ne_cover p q Hne); auto. }
+    { exfalso. apply (NOTBOTH s0 s1); auto. }
     assert (Efr1 : fr1 = true).
     { rewrite Hfr1. rewrite <- Huni. rewrite <- Hfr0. exact Hfresh0. }
     rewrite Efr1, Hi0, Hi1, Hf1. rewrite (proj1 (is_infeas_eq s0) Hi0). cbn [is_feas andb orb].
-    specialize (He1 k3). destruct (elim_sub o 0 false (q ++ [row1 p]) s1 C1 k3) as [r1 k4] eqn:Er1.
+    specialize (He1 k3). destruct (elim_sub o tol false (q ++ [row1 p]) s1 C1 k3) as [r1 k4] eqn:Er1.
     cbn [fst] in He1.
     assert (Xr1 : c_exists r1 = true).
-    { pose proof (elim_sub_exists o 0 C1 false (q ++ [row1 p]) s1 k3 eq_refl) as X. rewrite Er1 in X. exact X. }
+    { pose proof (elim_sub_exists o tol C1 false (q ++ [row1 p]) s1 k3 eq_refl) as X. rewrite Er1 in X. exact X. }
     destruct isroot; cbn [fst]; unfold res_ok.
     + intros _. repeat split; auto.
-    + exact (eff_incl r1 (q ++ [row1 p]) q Iq1 He1).
+    + exact (eff_incl tol r1 (q ++ [row1 p]) q Iq1 He1).
   - (* branch 0 feasible *)
     rewrite Hi0 in Hsk0. subst skip0.
-    specialize (He0 k1). destruct (elim_sub o 0 false (q ++ [row0 p]) s0 C0 k1) as [sub0 k2] eqn:Er0.
+    specialize (He0 k1). destruct (elim_sub o tol false (q ++ [row0 p]) s0 C0 k1) as [sub0 k2] eqn:Er0.
     cbn [fst] in He0.
     assert (X0 : c_exists sub0 = true).
-    { pose proof (elim_sub_exists o 0 C0 false (q ++ [row0 p]) s0 k1 eq_refl) as X. rewrite Er0 in X. exact X. }
-    pose proof (eff_state _ _ X0 He0) as Fs0.
-    destruct (visit o 0 st (q ++ [row1 p]) (row1 p) C1 k2) as [[[s1 k3] fr1] skip1] eqn:Ev1.
-    destruct (STEP C1 (row1 p) k2 Ho1 eq_refl Hk1 IHC1 s1 k3 fr1 skip1 Ev1) as [Hfr1 [Hsk1 Hc1]].
+    { pose proof (elim_sub_exists o tol C0 false (q ++ [row0 p]) s0 k1 eq_refl) as X. rewrite Er0 in X. exact X. }
+    pose proof (eff_state _ _ _ X0 He0) as Fs0.
+    destruct (visit o tol st (q ++ [row1 p]) (row1 p) C1 k2) as [[[s1 k3] fr1] skip1] eqn:Ev1.
+    destruct (STEP C1 (row1 p) k2 Ho1 eq_refl Hk1 IHC1 s1 k3 fr1 skip1 Ev1) as [Hfr1 [Hsk1 [N1 Hc1]]].
     destruct Hc1 as [[Hi1 [Hn1 Hfresh1]]|[Hi1 [Hf1 [Hg1 He1]]]].
     + (* branch 1 infeasible: forward branch 0 *)
       rewrite Hfresh1, X0, Fs0, Hi1. rewrite (proj1 (is_infeas_eq s1) Hi1). cbn [is_feas andb orb].
       destruct isroot; cbn [fst]; unfold res_ok.
       * intros _. repeat split; auto.
-      * exact (eff_incl sub0 (q ++ [row0 p]) q Iq0 He0).
+      * exact (eff_incl tol sub0 (q ++ [row0 p]) q Iq0 He0).
     + (* both feasible: nothing is removed *)
       rewrite Hi1 in Hsk1. subst skip1.
       rewrite Hi1, (feas_not_infeas _ Fs0). rewrite !andb_false_r. cbn [orb andb].
-      specialize (He1 k3). destruct (elim_sub o 0 false (q ++ [row1 p]) s1 C1 k3) as [sub1 k4] eqn:Er1.
+      specialize (He1 k3). destruct (elim_sub o tol false (q ++ [row1 p]) s1 C1 k3) as [sub1 k4] eqn:Er1.
       cbn [fst] in He1.
       assert (X1 : c_exists sub1 = true).
-      { pose proof (elim_sub_exists o 0 C1 false (q ++ [row1 p]) s1 k3 eq_refl) as X. rewrite Er1 in X. exact X. }
+      { pose proof (elim_sub_exists o tol C1 false (q ++ [row1 p]) s1 k3 eq_refl) as X. rewrite Er1 in X. exact X. }
       rewrite ?andb_false_r. cbn [fst].
       destruct isroot; unfold res_ok.
       * intros _. repeat split; auto.
       * destruct (Hst eq_refl) as [H1 H2]. repeat split; auto.
 Qed.
 
-Theorem elim_eff o t : (forall r, is_path [] t r -> oexact_at o r) -> mir_sound o 0 ->
-  c_exists t = true -> okc_kids [] t -> st_wit 0 [] (c_state t) ->
-  eff_root [] (fst (elim o 0 t)).
+Theorem elim_eff o tol t : 0 <= tol -> (forall r, is_path [] t r -> oexact_at o r) -> mir_sound o tol ->
+  c_exists t = true -> okc_kids tol [] t -> st_wit tol [] (c_state t) ->
+  eff_root tol [] (fst (elim o tol t)).
 Proof.
-  intros Ho Hm He Hk Hw. unfold elim.
-  apply (elim_sub_eff o Hm t true [] (c_state t) k0); auto.
-  - apply ne_nil.
+  intros Ht Ho Hm He Hk Hw. unfold elim.
+  apply (elim_sub_eff o tol Ht Hm t true [] (c_state t) k0); auto.
+  - left. apply ne_nil.
   - discriminate.
 Qed.
 
@@ -314,30 +363,30 @@ Proof.
   rewrite IH1 by exact Hk1. reflexivity.
 Qed.
 
-Lemma eff_settled : forall t q, eff q t -> settled t.
+Lemma eff_settled tol : forall t q, eff tol q t -> settled t.
 Proof.
   induction t as [|i leaf p s c0 IH0 c1 IH1]; intros q H; [exact I|].
   destruct H as [Hf [_ Hk]]. split; [exact Hf|]. intros Hl. destruct (Hk Hl) as [_ [_ [H0 H1]]].
   split; [eapply IH0 | eapply IH1]; eauto.
 Qed.
-Lemma eff_root_settled t q : eff_root q t -> settled_kids t.
+Lemma eff_root_settled tol t q : eff_root tol q t -> settled_kids t.
 Proof.
   destruct t as [|i leaf p s c0 c1]; [intros _; exact I|]. intros H Hl. destruct (H Hl) as [_ [H0 H1]].
   split; eapply eff_settled; eauto.
 Qed.
 
 (* a second run, with any oracle and any tolerance, changes nothing and solves no LP *)
-Theorem elim_idem o tol o' tol' t : eff_root [] (fst (elim o tol t)) ->
+Theorem elim_idem o tol o' tol' t : eff_root tol [] (fst (elim o tol t)) ->
   elim o' tol' (fst (elim o tol t)) = (fst (elim o tol t), k0).
 Proof.
   intros H. unfold elim at 1. rewrite elim_sub_fixed by (eapply eff_root_settled; eauto).
   rewrite set_st_id. reflexivity.
 Qed.
 
-(* what eff says, unfolded one level *)
-Lemma eff_content q i leaf p s c0 c1 : eff q (CN i leaf p s c0 c1) ->
-  ne q /\ is_feas s = true /\ (leaf = false -> c_exists c0 = true /\ c_exists c1 = true).
+(* what eff tol says, unfolded one level *)
+Lemma eff_content tol q i leaf p s c0 c1 : 0 <= tol -> eff tol q (CN i leaf p s c0 c1) ->
+  ne_tol tol q /\ is_feas s = true /\ (leaf = false -> c_exists c0 = true /\ c_exists c1 = true).
 Proof.
-  intros [Hf [Hg Hk]]. split; [eapply gst_feas_ne; eauto|]. split; [exact Hf|].
+  intros Ht [Hf [Hg Hk]]. split; [eapply gst_feas_ne; eauto|]. split; [exact Hf|].
   intros Hl. destruct (Hk Hl) as [H0 [H1 _]]. auto.
 Qed.
